@@ -72,6 +72,10 @@ pub fn digest_line(seed: u64, i: u64) -> String {
     if i % 5 == 2 {
         src.bare_eof = true;
     }
+    // a source chaining inner sources: an empty block ahead of the data in every third read
+    if i % 19 == 11 {
+        src.empty_fill_every = 3;
+    }
     // the library's own MemSource over a sample vector that is NOT a whole number of inter-channel
     // samples (a stray value at the end, delivered in a last read of its own): whatever the
     // library does with the stray value, it must not depend on the feature set
